@@ -131,6 +131,10 @@ def disc_op(*summaries, observed=None, flavour='cont', cut=1.0, levels=3.0, node
         d = np.floor(d * levels) / levels
     if 'inf' in flavour:
         d = np.where(d > cut, np.inf, d)
+    if flavour == 'int':
+        d = np.floor(d * levels).astype(np.int64)       # integer-valued discrepancy (exact-count ABC)
+    if flavour == 'bool':
+        d = d > cut                                      # boolean discrepancy: mismatch yes/no
     return d
 
 
